@@ -221,7 +221,7 @@ def run(ctx):
     rep.assumptions = ["reads past the received length but inside the MTU-sized buffer are allowed by the statement; the buffer "
                        "tail is defined memory", "a clean sanitizer run is not memory safety: intra-object overflows and accesses "
                        "landing in another live allocation are invisible to red zones"]
-    n = ctx.n(4000, 100000)
+    n = ctx.n(4000, 64000)
     scns = make_scenarios(ctx, n)
     asan = H.build(ctx.work, "asan")
     run_monitored(ctx, asan, scns, monitor, tag="asan", cpu_limit=30)
@@ -229,6 +229,6 @@ def run(ctx):
     if not ctx.quick:
         from . import c01_deep
         c01_deep.run(ctx, scns, monitor)
-    rep.need("inputs_executed", rep.counters.get("inputs_executed", 0), ctx.n(100000, 2000000))
+    rep.need("inputs_executed", rep.counters.get("inputs_executed", 0), ctx.n(100000, 1500000))
     for fam in FAMILIES:
         rep.need("family:" + fam, rep.counters.get("family:" + fam, 0), 100)
